@@ -192,6 +192,56 @@ def handle (toks : List String) : Option String :=
       let (okc, s2) := s1.close
       some s!"ok writes={if tr.isEmpty then "-" else ",".intercalate tr.reverse} close={okc} out={toHex s2.written.flatten} nwrites={s2.written.length}"
     | _, _ => none
+  | ["st.frame", expect, scr, plan] =>
+    -- the Frame interface at arbitrary moments: plan = actions separated by '.':
+    -- r<cap> one Read, a read to the end (cap 64), h GetHeader, b GetBrand, f GetFooter, c<typ> CheckArmor62Frame
+    match parseExpect expect, parseScript scr with
+    | some ex, some src =>
+      let par := Armor.params62
+      let setF (d : DState) (f : FState) : DState := { d with fil := { d.fil with f := f } }
+      let showE : RErr → String := fun e => showRErr (some e)
+      let rec go (fuel : Nat) (acts : List String) (d : DState) (tr : List String) : List String :=
+        match fuel, acts with
+        | 0, _ => ("fuel" :: tr).reverse
+        | _, [] => tr.reverse
+        | fuel + 1, a :: rest =>
+          if a = "h" then
+            let (r, f1) := fGetHeader par ex d.fil.f
+            go fuel rest (setF d f1) ((match r with | .ok h => s!"h={toHex h}" | .error e => s!"h!{showE e}") :: tr)
+          else if a = "b" then
+            let (r, f1) := fGetBrand par ex d.fil.f
+            go fuel rest (setF d f1) ((match r with | .ok h => s!"b={toHex h}" | .error e => s!"b!{showE e}") :: tr)
+          else if a = "f" then
+            let o := match fGetFooter par d.fil.f with
+              | none => "f!not-ready"
+              | some (.ok h) => s!"f={toHex h}"
+              | some (.error e) => s!"f!{showErr e}"
+            go fuel rest d (o :: tr)
+          else if a.startsWith "c" then
+            match (a.drop 1).toString.toInt? with
+            | none => ["bad"]
+            | some typ =>
+              let (r, f1) := fCheckFrame par ex typ d.fil.f
+              let o := match r with
+                | .error e => s!"c!{showE e}"
+                | .ok none => "c!not-ready"
+                | .ok (some (.error e)) => s!"c!{showErr e}"
+                | .ok (some (.ok b)) => s!"c={toHex b}"
+              go fuel rest (setF d f1) (o :: tr)
+          else if a.startsWith "r" then
+            match (a.drop 1).toString.toNat? with
+            | none => ["bad"]
+            | some cap =>
+              let (x, e, d1) := dRead par ex cap d
+              go fuel rest d1 (s!"r={toHex x}:{showRErr e}" :: tr)
+          else if a = "a" then
+            let (x, e, d1) := dRead par ex 64 d
+            match e with
+            | none => go fuel ("a" :: rest) d1 (s!"r={toHex x}:nil" :: tr)
+            | some e => go fuel rest d1 (s!"r={toHex x}:{showRErr (some e)}" :: tr)
+          else ["bad"]
+      some ("ok " ++ " ".intercalate (go (scr.length + 4 * plan.length + 64) (plan.splitOn ".") (newDecoder src) []))
+    | _, _ => none
   | ["st.aw", typ, brand, writes] =>
     -- the armor writer call by call: cumulative output length after the constructor, after every Write, and the final text
     match typ.toInt?, ofHex brand, hexList writes with
